@@ -29,6 +29,10 @@ def _norm(e) -> str:
 def run(chk, repo: Repo):
     chk.rule("C12-R1", "_apply_func: convert in (domain geometry, carried flag) -> apply -> convert out (range geometry) -> wrap like input; "
                        "Samples column-wise with the collection's flags", floor=2)
+    chk.rule("C12-R6", "the model acts on every input as given: no computation path of the model layer is selected by a tolerance comparator (a collection of "
+                       "nearly equal samples must still be mapped column by column)", floor=1)
+    from ..tolerant import tolerant_shortcut_rule
+    tolerant_shortcut_rule(chk, repo, "C12-R6", ("cuqi/model/",))
     chk.rule("C12-R2", "_2fun/_2par: convert only when not already in the target representation; CUQIarray with equal geometry uses its own conversion", floor=2)
     chk.rule("C12-R3", "gradient: wrt/direction conversions and vector-Jacobian orientation", floor=4)
     chk.rule("C12-R4", "model(distribution) renames a copy after the dimension check", floor=1)
